@@ -152,7 +152,7 @@ def gen_case(seed, profile_weights, tier, tol_lo=None):
     rng = S['topology']
     profiles = [p for p, w in profile_weights for _ in range(w)]
     profile = profiles[S['swarm'].randrange(len(profiles))]
-    T = S['knobs'].randint(1, 8)
+    T = S['knobs'].randint(1, 12 if tier == 'thorough' else 8)     # the thorough tier also goes deeper in time
     case = {'kind': 'EQN', 'profile': profile, 'drive': S['knobs'].choice(['mono', 'step', 'step']),
             'faults': [], 'expect': {}}
     knobs, tol_text = pick_knobs(S['knobs'], T, tol_lo=tol_lo)
